@@ -133,6 +133,7 @@ def cases(tier, seed):
                 reqs.append(mie_ref.req_layered(
                     [n / N_MED for n in ns], [K * r for r in rs]))
     out.append({"id": "layered-thickness", "kind": "layered_t"})
+    out.append({"id": "theory-object-reuse", "kind": "reuse"})
     # one deliberate vector beyond the Fortran Bessel routine's range
     # (DESIGN.md section 6 #13)
     reqs.append(mie_ref.req_homog(1.2, 5.0))
@@ -554,9 +555,46 @@ def _run_layered_t(case, ck):
     return digest(*fps)
 
 
+def _run_reuse(case, ck):
+    """one theory object serving a sequence of calls that differ in the
+    wavelength, the medium or the sphere only: each result is the result of
+    a fresh object (which the other cases compare with the textbook)"""
+    import holopy as hp
+    from holopy.scattering import (Sphere, Spheres, Mie, Multisphere,
+                                   calc_field, calc_scat_matrix)
+    pts = _points([30.0, 1e3])
+    det = hp.detector_points(x=pts[:, 0], y=pts[:, 1], z=pts[:, 2])
+    steps = [(0.66, 1.33, 1.59, 0.5), (0.405, 1.33, 1.59, 0.5),
+             (0.66, 1.33, 1.59, 0.5), (0.66, 1.0, 1.59, 0.5),
+             (0.52, 1.33, 1.59, 0.5), (0.52, 1.33, 1.5, 0.5),
+             (0.52, 1.33, 1.5, 0.45)]
+    fps = []
+    for name, mk, wrap in (("Mie", lambda: Mie(), lambda s: s),
+                           ("Multisphere", lambda: Multisphere(),
+                            lambda s: Spheres([s]))):
+        shared = mk()
+        for j, (wl, nm, n, r) in enumerate(steps):
+            sc = wrap(Sphere(n=n, r=r, center=CENTER))
+            for fn, kw in ((calc_field, dict(illum_polarization=(1, 0))),
+                           (calc_scat_matrix, {})):
+                a = fn(det, sc, nm, wl, theory=shared, **kw).values
+                b = fn(det, sc, nm, wl, theory=mk(), **kw).values
+                ck.trans += 2
+                ck.true("theory-object-reuse", a.shape == b.shape and
+                        bool(np.array_equal(a, b)), "%s object reused: step "
+                        "%d (wavelength %g, medium %g, n %g, r %g), %s "
+                        "differs from a fresh object's by %.2e" %
+                        (name, j, wl, nm, n, r, fn.__name__,
+                         float(np.abs(a - b).max() / np.abs(b).max())
+                         if a.shape == b.shape else -1))
+                fps.append(fp_values(a))
+    return digest(*fps)
+
+
 def run_case(case):
     ck = Checker()
     fp = {"mie": _run_mie, "far": _run_far, "j1zero": _run_j1zero, "ms": _run_ms, "msm": _run_msm,
+          "reuse": _run_reuse,
           "layered": _run_layered, "layered_t": _run_layered_t}[
               case["kind"]](case, ck)
     return ck.result(fp=fp)
